@@ -39,14 +39,17 @@ pub fn check_bank_overlap(
                     (None, None) =>
                         true,
 
+                    // A window whose end does not fit the machine word
+                    // extends past every other offset
                     (Some(size1), None) =>
-                        outp1 + size1 > outp2,
+                        outp1.checked_add(size1).map_or(true, |end1| end1 > outp2),
 
                     (None, Some(size2)) =>
-                        outp2 + size2 > outp1,
+                        outp2.checked_add(size2).map_or(true, |end2| end2 > outp1),
 
                     (Some(size1), Some(size2)) =>
-                        outp1 + size1 > outp2 && outp2 + size2 > outp1,
+                        outp1.checked_add(size1).map_or(true, |end1| end1 > outp2) &&
+                        outp2.checked_add(size2).map_or(true, |end2| end2 > outp1),
                 }
             };
 
@@ -316,8 +319,9 @@ fn check_bank_output(
 
     if let Some(bank_size) = bankdef.size
     {
-        // FIXME: Addition can overflow
-        if ctx.bank_data.cur_position + size > bank_size
+        if ctx.bank_data.cur_position
+            .checked_add(size)
+            .map_or(true, |end| end > bank_size)
         {
             report.push_parent(
                 format!(
